@@ -897,10 +897,12 @@ NestCase(ord, hk, odd, rvar) ==
   MkCase2("nest", ord, <<Ax1>>, NoAvar, NestGlyphs(NestOrders[ord], odd, rvar), NestHvar(hk), NoMvar2, Lay0, Users1)
 NestCases ==
   IF Thorough
-  THEN {NestCase(ord, hk, odd, rvar) : ord \in {"asc", "desc", "mix"}, hk \in {"none", "advmap", "bothmap"},
-                                      odd \in BOOLEAN, rvar \in BOOLEAN}
+  THEN {[NestCase(ord, hk, odd, rvar) EXCEPT !.nhm = nh] : ord \in {"asc", "desc", "mix"}, hk \in {"none", "advmap", "bothmap"},
+                                      odd \in BOOLEAN, rvar \in BOOLEAN, nh \in {3, 6}}
   ELSE {NestCase(ord, hk, FALSE, ord = "mix") : ord \in {"asc", "desc", "mix"}, hk \in {"none", "advmap", "bothmap"}}
-       \cup {NestCase("mix", "none", TRUE, FALSE)}
+       \cup {NestCase("mix", "none", TRUE, FALSE),
+              \* numberOfHMetrics < numGlyphs: the last three glyphs take the advance of glyph 2
+              [NestCase("desc", "none", FALSE, TRUE) EXCEPT !.nhm = 3], [NestCase("mix", "advmap", TRUE, TRUE) EXCEPT !.nhm = 3]}
 
 \* composite components that are composites themselves, by direction of the reference
 NestRefs(cs, fwd) ==
@@ -1001,6 +1003,7 @@ Vac2(cs) ==
           nest_forward_no_hvar |-> BoolN(NestRefs(cs, TRUE) > 0 /\ ~cs.hvar.present),
           nest_forward_hvar_no_lsbmap |-> BoolN(NestRefs(cs, TRUE) > 0 /\ cs.hvar.present /\ ~cs.hvar.lsb.present),
           nest_forward_hvar_lsbmap |-> BoolN(NestRefs(cs, TRUE) > 0 /\ cs.hvar.present /\ cs.hvar.lsb.present),
+          nest_short_hmtx |-> BoolN(cs.nhm < NG(cs)),
           nest_unvaried_composite |-> BoolN(\E k \in 1 .. NG(cs) : cs.glyphs[k].kind = "composite" /\ cs.glyphs[k].gv.tuples = <<>>)]
     [] OTHER ->
          [lay_mvar_rec8 |-> BoolN(cs.mvar.present /\ cs.mvar.recSize = 8),
